@@ -178,7 +178,7 @@ def load(profile="dev", features=None, crate="indextree", repo=None):
     return _loaded[k]
 
 
-def prune_cache(keep=300, min_age_s=1800):
+def prune_cache(keep=160, min_age_s=1800):
     """Keep the cache bounded (oldest entries first).  Entries younger than `min_age_s` are never touched: another check running in parallel may be
     building them (`*.tmp<pid>` directories) or about to read them."""
     import time
